@@ -587,7 +587,7 @@ class ModelMixin2:
                     pass
         else:
             e = IdxE(status[0], base.parent, base.anchor, why=status[1])
-        sym = st.new(e)
+        sym = st.new(replace(e, advloop=depth))
         m = dict(st.mon.get('advsym') or {})
         m[depth] = sym
         st.mon['advsym'] = m
@@ -613,7 +613,7 @@ class ModelMixin2:
                 e = replace(base, descr='')
                 if base.kind == 'slot':
                     e = replace(base, kind='fresh', anchor=None, why='position after the nodes inserted so far')
-        sym = st.new(e)
+        sym = st.new(replace(e, advloop=depth))
         m = dict(st.mon.get('advsym') or {})
         m[depth] = sym
         st.mon['advsym'] = m
@@ -848,8 +848,10 @@ class ModelMixin2:
                 out.append((Ref('dict', s.new(DictE(tuple(d.items()), True))), s))
                 continue
             if kind == 'set':
-                items = tuple(dict.fromkeys(acc)) if all(isinstance(x, (Const, ClsV)) for x in acc) else acc
-                sym = s.new(ListE('set', 0 if len(items) != len(acc) else len(items), len(items), items=items, ordered=False, stages=('literal', stage)))
+                concrete = all(isinstance(x, (Const, ClsV)) for x in acc)
+                items = tuple(dict.fromkeys(acc)) if concrete else acc
+                # concrete values: the set is known exactly; otherwise equal elements may have collapsed
+                sym = s.new(ListE('set', len(items) if concrete else min(len(acc), 1), len(items), items=items, ordered=False, stages=('literal', stage)))
             else:
                 sym = s.new(ListE('lit', len(acc), len(acc), items=tuple(acc), ordered=sp.ordered,
                                   stages=('literal',) + (('filter',) if g.ifs else ()) + (stage,)))
